@@ -58,7 +58,7 @@ REQUIRED = ['ext_vec_empty_meta_calls', 'vec_calls', 'vec_rows_checked', 'vec_mo
             'auto_constants', 'masked_constants', 'masked_array_len_eq_batch', 'batch_from_inputs', 'batch_from_batch_size',
             'kwargs_passed',
             'ext_calls', 'ext_tokens_checked', 'ext_positional_fields', 'ext_keyword_fields', 'ext_seed_equal_state_pairs',
-            'ext_seed_rows_distinct', 'ext_model_runs', 'ext_model_seed_replayed', 'ext_dtype_nondefault', 'ext_sep_nondefault']
+            'ext_seed_rows_distinct', 'ext_model_runs', 'ext_model_seed_replayed', 'ext_dtype_nondefault', 'ext_sep_nondefault', 'ext_commands_writing_to_stderr']
 
 BATCH_SIZES = [1, 1, 2, 3, 3, 5, 8]
 
@@ -667,7 +667,20 @@ def _ftext(f):
     return '{%s%s%s}' % (key, '[%d]' % f['idx'] if f['idx'] is not None else '', ':' + f['spec'] if f['spec'] else '')
 
 
+def stderr_noise(family, fields, spaces):
+    # a third of the commands also write numeric diagnostics to their standard ERROR stream, as real simulators do
+    # (progress counters, warnings); the statement parses standard OUTPUT only
+    return (len(fields) + spaces + len(family)) % 3 == 0
+
+
 def build_template(family, fields, spaces):
+    t, sep = _build_template(family, fields, spaces)
+    if stderr_noise(family, fields, spaces):
+        t = 'echo 77 3 >&2; ' + t + '; echo 100 >&2'
+    return t, sep
+
+
+def _build_template(family, fields, spaces):
     parts = [_ftext(f) for f in fields]
     if family == 'echo':
         gap = ' ' * spaces
@@ -800,6 +813,8 @@ def _count_fields(ctx, case):
         ctx.event('ext_dtype_nondefault')
     if case['family'] in ('echo_sep', 'printf_sep'):
         ctx.event('ext_sep_nondefault')
+    if stderr_noise(case['family'], case['fields'], case['spaces']):
+        ctx.event('ext_commands_writing_to_stderr')
     ctx.distinct('ext_class', '%s|%s|%s' % (case['kind'], case['family'], case['dtype']))
 
 
